@@ -3,6 +3,7 @@
 package ops
 
 import (
+	"context"
 	"fmt"
 
 	"gorm.io/gorm"
@@ -23,6 +24,7 @@ type WOp struct {
 	Target    uint           `json:"target,omitempty"`
 	Unscoped  bool           `json:"unscoped,omitempty"`
 	SessBatch int            `json:"session_batch_size,omitempty"` // create_slice / create_ptr_slice: Session{CreateBatchSize} routes Create through CreateInBatches
+	ScopeSess bool           `json:"scope_session,omitempty"`      // the operation carries a scope that returns a WithContext handle
 	Share     bool           `json:"share,omitempty"`              // records with the same non-zero key are one in-memory record shared by several parents
 	Str       string         `json:"str,omitempty"`
 	Int       int            `json:"int,omitempty"`
@@ -31,7 +33,7 @@ type WOp struct {
 var WriteKinds = []string{
 	"create", "create_slice", "create_ptr_slice", "create_batches", "create_map",
 	"save", "save_slice",
-	"update", "updates_struct", "updates_map", "updates_assoc", "updates_self", "update_column", "update_columns",
+	"update", "updates_struct", "updates_ptr", "updates_map", "updates_assoc", "updates_self", "update_column", "update_columns",
 	"delete", "delete_pet", "delete_select", "delete_where", "delete_slice",
 }
 
@@ -44,8 +46,15 @@ type Result struct {
 	Value interface{}
 }
 
+type scopeKey struct{}
+
 // session applies the op's session switches.
 func (op *WOp) session(db *gorm.DB) *gorm.DB {
+	if op.ScopeSess {
+		db = db.Scopes(func(d *gorm.DB) *gorm.DB {
+			return d.WithContext(context.WithValue(d.Statement.Context, scopeKey{}, "scoped"))
+		})
+	}
 	if op.SessBatch > 0 {
 		db = db.Session(&gorm.Session{CreateBatchSize: op.SessBatch})
 	}
@@ -115,6 +124,11 @@ func (op *WOp) Exec(db *gorm.DB) (res Result) {
 		u := &fam.User{ID: op.Target}
 		res.Roots, res.Value = []*fam.User{u}, u
 		return done(db.Model(u).Updates(fam.User{Name: op.Str, Age: op.Int}))
+	case "updates_ptr":
+		// the values come as a pointer to a struct other than the model value
+		u := &fam.User{ID: op.Target}
+		res.Roots, res.Value = []*fam.User{u}, u
+		return done(db.Model(u).Updates(&fam.User{Name: op.Str}))
 	case "updates_map":
 		u := &fam.User{ID: op.Target}
 		res.Roots, res.Value = []*fam.User{u}, u
@@ -189,6 +203,7 @@ func GenWOp(r *core.Rand, kinds []string) WOp {
 	op.Int = r.Intn(60)
 	op.Target = uint(1 + r.Intn(fam.FixUsers))
 	op.FullSave = r.Chance(25)
+	op.ScopeSess = r.Chance(8)
 	switch op.Kind {
 	case "create", "save", "updates_assoc", "updates_self":
 		op.Users = []fam.UserSpec{g.User(1)}
@@ -286,6 +301,11 @@ func ShrinkWOp(op WOp) []WOp {
 	if op.SessBatch > 0 {
 		v := op
 		v.SessBatch = 0
+		out = append(out, v)
+	}
+	if op.ScopeSess {
+		v := op
+		v.ScopeSess = false
 		out = append(out, v)
 	}
 	return out
